@@ -219,7 +219,7 @@ func c32Scratch(t *testing.T) string {
 	return d
 }
 
-func c32NewCluster(t *testing.T, n int, setup func(*Store)) (*c32Cluster, error) {
+func c32NewCluster(t *testing.T, n int, setup func(*Store), ids ...string) (*c32Cluster, error) {
 	c := &c32Cluster{base: c32Config{}, name: map[string]string{}}
 	ok := false
 	defer func() {
@@ -228,7 +228,11 @@ func c32NewCluster(t *testing.T, n int, setup func(*Store)) (*c32Cluster, error)
 		}
 	}()
 	for i := 0; i < n; i++ {
-		s, ln := mustNewStoreAtPathsLn(fmt.Sprintf("r%d-%s", i, random.String()[:6]), c32Scratch(t), false)
+		id := fmt.Sprintf("r%d-%s", i, random.String()[:6])
+		if i < len(ids) {
+			id = ids[i]
+		}
+		s, ln := mustNewStoreAtPathsLn(id, c32Scratch(t), false)
 		s.HeartbeatTimeout, s.ElectionTimeout, s.LeaderLeaseTimeout = c32RaftTO, c32RaftTO, c32RaftTO
 		s.RaftLogLevel = "ERROR"
 		if setup != nil {
@@ -981,6 +985,9 @@ type c32ReapCase struct {
 	NonvoterTimeoutMs int64      `json:"reap_read_only_timeout_ms"`
 	History           []c32Op    `json:"history,omitempty"`
 	Revive            *c32Revive `json:"revive,omitempty"`
+	// RealIDs names the three real voters (default: random ids). Used for the cases in which a ghost's
+	// id differs from a real voter's only in letter case: raft ids are case-sensitive, they are two nodes.
+	RealIDs []string `json:"real_ids,omitempty"`
 }
 
 // c32Revive: a REAL fourth node joins with Role, is shut down, stays away for
@@ -1016,7 +1023,7 @@ func (c c32ReapCase) timeout(voter bool) time.Duration {
 
 func c32RuleReap(depth int) string {
 	short, long := c32ReapShort.Milliseconds(), c32ReapLong.Milliseconds()
-	return (fmt.Sprintf("[reap] every join history of length 1..%d over join(id in {a,b}, address in {x,y}, voter|non-voter) whose first join is join(a,x,.) (the rest follows by renaming ids and addresses) x (ReapTimeout, ReapReadOnlyTimeout) in {(%dms,%dms),(%dms,%dms),(0,%dms),(%dms,0)} on a live cluster of three real voters. The joined members never answer, so raft reports failed heartbeats for them from the moment they are added. The configuration of every real node is polled every 20 ms until every member with a non-zero timeout for its role is gone (30 s allowance) and 1.5 s longer. Oracle: a member may leave the configuration without a remove only when the timeout of the role it holds has elapsed since the harness started the first join of that id (the member has been silent ever since; raft's last-contact time cannot be earlier), and never if that timeout is 0; uniqueness at every observation. Revive cases (both timeouts %dms): a REAL fourth node joins as voter|non-voter, is shut down, stays away for %dms or %dms, comes back with the same data on the same or a new address and re-joins asking voter|non-voter (16 cases); once the leader has reached it again it answers every heartbeat, so it must stay in the configuration while watched (until 4 s past the moment the timeout counted from its shutdown runs out). distinct = (setting, history, fate of each member)", depth, long, short, short, long, short, short, c32ReviveTimeout.Milliseconds(), int64(1000), c32ReviveTimeout.Milliseconds()-1500))
+	return (fmt.Sprintf("[reap] every join history of length 1..%d over join(id in {a,b}, address in {x,y}, voter|non-voter) whose first join is join(a,x,.) (the rest follows by renaming ids and addresses) x (ReapTimeout, ReapReadOnlyTimeout) in {(%dms,%dms),(%dms,%dms),(0,%dms),(%dms,0)} on a live cluster of three real voters. The joined members never answer, so raft reports failed heartbeats for them from the moment they are added. The configuration of every real node is polled every 20 ms until every member with a non-zero timeout for its role is gone (30 s allowance) and 1.5 s longer. Oracle: a member may leave the configuration without a remove only when the timeout of the role it holds has elapsed since the harness started the first join of that id (the member has been silent ever since; raft's last-contact time cannot be earlier), and never if that timeout is 0; uniqueness at every observation. Case cases: the three real voters are called N0,N1,N2 (or n0,n1,n2) and one ghost n1 (or N1) joins as voter|non-voter under each of the four timeout settings (16 cases): ids that differ only in letter case are different nodes, each reaped by its own role's timeout. Revive cases (both timeouts %dms): a REAL fourth node joins as voter|non-voter, is shut down, stays away for %dms or %dms, comes back with the same data on the same or a new address and re-joins asking voter|non-voter (16 cases); once the leader has reached it again it answers every heartbeat, so it must stay in the configuration while watched (until 4 s past the moment the timeout counted from its shutdown runs out). distinct = (setting, history, fate of each member)", depth, long, short, short, long, short, short, c32ReviveTimeout.Milliseconds(), int64(1000), c32ReviveTimeout.Milliseconds()-1500))
 }
 
 func c32ReapCases(depth int) []c32ReapCase {
@@ -1034,6 +1041,19 @@ func c32ReapCases(depth int) []c32ReapCase {
 		}
 		for _, to := range [][2]int64{{long, short}, {short, long}, {0, short}, {short, 0}} {
 			cases = append(cases, c32ReapCase{VoterTimeoutMs: to[0], NonvoterTimeoutMs: to[1], History: h})
+		}
+	}
+	// ids that differ only in letter case: three real voters N0,N1,N2 (or n0,n1,n2) and a ghost n1 (or N1)
+	for _, realUpper := range []bool{true, false} {
+		real, ghost := []string{"N0", "N1", "N2"}, "n1"
+		if !realUpper {
+			real, ghost = []string{"n0", "n1", "n2"}, "N1"
+		}
+		for _, voter := range []bool{false, true} {
+			for _, to := range [][2]int64{{long, short}, {short, long}, {0, short}, {short, 0}} {
+				cases = append(cases, c32ReapCase{VoterTimeoutMs: to[0], NonvoterTimeoutMs: to[1], RealIDs: real,
+					History: []c32Op{{Kind: "join", ID: ghost, Addr: c32AddrX, Voter: voter}}})
+			}
 		}
 	}
 	T := c32ReviveTimeout.Milliseconds()
@@ -1089,7 +1109,7 @@ func c32ReapPart(t *testing.T, r *kit.Run, cases []c32ReapCase) {
 				}
 				r.Eval(1)
 				r.Transition(len(rc.History))
-				key := fmt.Sprintf("V=%dms,N=%dms:%s=>%s", rc.VoterTimeoutMs, rc.NonvoterTimeoutMs, c32HistString(rc.History), out)
+				key := fmt.Sprintf("V=%dms,N=%dms:%s%v=>%s", rc.VoterTimeoutMs, rc.NonvoterTimeoutMs, c32HistString(rc.History), rc.RealIDs, out)
 				if rc.Revive != nil {
 					r.Transition(4)
 					key = fmt.Sprintf("V=N=%dms:%s=>%s", rc.VoterTimeoutMs, rc.Revive, out)
@@ -1132,13 +1152,16 @@ func c32RunReap(t *testing.T, r *kit.Run, k *c32Checker, rc c32ReapCase) (string
 	c, err := c32NewCluster(t, 3, func(s *Store) {
 		s.ReapTimeout = rc.timeout(true)
 		s.ReapReadOnlyTimeout = rc.timeout(false)
-	})
+	}, rc.RealIDs...)
 	if err != nil {
 		return "", fmt.Errorf("%w: %v", errC32Infra, err)
 	}
 	defer c.close()
 	replay := rc
 	hist := fmt.Sprintf("ReapTimeout=%v ReapReadOnlyTimeout=%v, %s", rc.timeout(true), rc.timeout(false), c32HistString(rc.History))
+	if len(rc.RealIDs) > 0 {
+		hist += fmt.Sprintf(" (real voters %v)", rc.RealIDs)
+	}
 
 	type tracked struct {
 		since time.Time // the harness started the join that produced the present entry
